@@ -235,6 +235,14 @@ K("O03.1", ["C03"], "gc", "c03_constructors_register", level="bounded", bound="o
 # therefore not decided by any obligation.
 
 # ---------------------------------------------------------------------------------------------
+# C17 retained sessions
+# ---------------------------------------------------------------------------------------------
+V("O17.1", ["C17"], "c17_session", expect_verified=2, functions=["Compiler::compile_program", "Compiler::compile_ast"],
+  desc="after compile_ast the compiler's code buffer is empty on Ok AND on Err; on Err no remembered last instruction, no open loop context, symbol table reset to the global scope; on Ok the code handed out ends with Halt and carries all constants")
+V("O17.2", ["C17", "C03"], "c17_vm", expect_verified=2, functions=["VM::run", "VM::run_code (prologue)"],
+  desc="VM::run puts the same collector back on every exit path (heap values held by globals stay managed); every run starts from an empty operand stack, one call frame, ip = bp = 0, the new code; globals kept")
+
+# ---------------------------------------------------------------------------------------------
 # per-property information for the evidence files
 # ---------------------------------------------------------------------------------------------
 NOT_APPLICABLE = {
@@ -245,6 +253,14 @@ NOT_APPLICABLE = {
 }
 
 PROPERTIES = {
+    "C17": {
+        "level": "proof",
+        "claim": "PARTIAL: the state-reset contracts of a retained compiler / machine, proved (Verus) on the verbatim bodies of compile_ast, compile_program, VM::run and the prologue of run_code: a failed compile leaves no code, loop or function context behind; a successful one leaves an empty code buffer; every run starts from an empty stack and a single frame; the collector (hence every heap value a global refers to) survives the run on success and on every error path. NOT decided: that a session equals the concatenated program (relational, needs C01), globals' values across lines, effects of a run-time failure on globals.",
+        "note": "Trusted: Verus/Z3, rules R1,R4,R4s,R4m,R8,R11 (mem::take / mem::replace helpers with the std-documented contract). Three defects of retained sessions were repaired (known-findings.txt).",
+        "design_ref": "DESIGN.md 3.14",
+        "undecided": ["session == concatenated program (relational)", "SymbolTable::reset_to_global internals (Context is opaque)", "function values across lines (ip refers to a previous code buffer: documented upstream limitation, test_retained_functions is #[ignore]d)"],
+        "assumptions": ["compile_statement / run_code are opaque here"],
+    },
     "C03": {
         "level": "proof",
         "claim": "PARTIAL. Proved (Verus, verbatim ReturnValue / Return arms, stacks of every size): at both collection points the root set handed to the collector is exactly the caller's operand stack, the constants, the globals, the last statement value and - for ReturnValue - the value being returned; Halt untraces the result before handing it out. Checked (Kani, bounded): every heap constructor registers its result with the collector exactly once and maybe_trace never registers an object twice. NOT decided: the collector algorithm itself (mark / sweep / untrace / destroy).",
